@@ -35,6 +35,9 @@ CHECKS = {
  "C13": dict(level="exploration", family="sched", ref="6.11",
    technique="deterministic simulation: every thread interleaving decision (mutex/cond/join, wake-up choice, spurious wake-ups, timers) taken by a seeded scheduler; differential single-threaded vs threaded runs and a buffer-ownership state machine over io.c hand-over events obtained by link-time trampolines",
    text="Each scenario runs without worker threads and then under cache depths 3..128 and seven scheduling policies with spurious wake-ups: parity, content, error set, scan classification, exit status and stripe order must be identical; ownership/exactly-once monitors run on every threaded command; deadlock and step bound are detected by the scheduler. Data races between two yield points are outside what a serialising scheduler can see."),
+ "C05": dict(level="exploration", family="fixsafe", ref="6.3",
+   technique="deterministic simulation: sync histories disturbed by concurrent-change and I/O faults at the first open of a file, kills after the parity update, unlimited damage, filtered fix; per-file oracle against the harness version store",
+   text="Seeded histories leave pending/replaced/deleted blocks behind (partial syncs, syncs during which a file changes or becomes unreadable exactly when sync opens it, sync killed after the parity update), then damage without per-stripe budget and fix with random filters. Every recorded file must hold the recorded bytes (blocks matched by recorded hash) or be reported unrecoverable with failing status; 'recovered' implies correct; nothing unreported and no unknown file is written."),
 }
 NA = [
  ("C02", "pure function of (nd, np, size, buffers, variant): no schedule, clock, fault, crash point or history for a simulator to own"),
